@@ -1967,6 +1967,16 @@ func (m *machine) lowerTailCall(si *ssa.Instruction) {
 	}
 
 	isAllRegs := stackSlotSize == 0
+	if !isDirectCall && isAllRegs {
+		// The indirect tail call below keeps the callee address in r11, which is also the last
+		// integer argument register: when the callee takes an argument there, do a plain call.
+		for i := range calleeABI.Args {
+			if arg := &calleeABI.Args[i]; arg.Kind == backend.ABIArgKindReg && arg.Reg.RealReg() == r11 {
+				isAllRegs = false
+				break
+			}
+		}
+	}
 
 	switch {
 	case isDirectCall && isAllRegs:
